@@ -188,7 +188,7 @@ pub fn build_req(id: u32, method: String, path: String, version: &str, mut extra
     match &framing {
         Framing::Length { n } => {
             let v = if mask & 0x100 != 0 { format!("{:03}", n) } else { n.to_string() };
-            extra.insert(ins, Hdr { name: case_variant("Content-Length", mask), pre: if mask & 0x200 != 0 { String::new() } else { " ".into() }, value: v, post: String::new() });
+            extra.insert(ins, Hdr { name: case_variant("Content-Length", mask), pre: if mask & 0x200 != 0 { String::new() } else { [" ", " ", "\t", " \t"][(mask as usize >> 30) % 4].into() }, value: v, post: ["", "", " ", "\t"][(mask as usize >> 28) % 4].into() });
             ins += 1;
         }
         Framing::Chunked { .. } => {
@@ -197,7 +197,7 @@ pub fn build_req(id: u32, method: String, path: String, version: &str, mut extra
                 extra.insert(at.min(extra.len()), Hdr::new("Content-Length", &cl.to_string()));
             }
             let at = ins.min(extra.len());
-            extra.insert(at, Hdr { name: case_variant("Transfer-Encoding", mask), pre: " ".into(), value: case_variant("chunked", mask >> 3), post: String::new() });
+            extra.insert(at, Hdr { name: case_variant("Transfer-Encoding", mask), pre: [" ", " ", "\t", "", "  "][(mask as usize >> 6) % 5].into(), value: case_variant("chunked", mask >> 3), post: ["", "", "\t", " "][(mask as usize >> 29) % 4].into() });
             ins = at + 1;
         }
         Framing::Upgrade { .. } => {
@@ -208,7 +208,7 @@ pub fn build_req(id: u32, method: String, path: String, version: &str, mut extra
     }
     if let Some(c) = connection {
         let at = (ins + (mask as usize >> 12)) % (extra.len() + 1);
-        extra.insert(at, Hdr { name: case_variant("Connection", mask >> 5), pre: " ".into(), value: c, post: String::new() });
+        extra.insert(at, Hdr { name: case_variant("Connection", mask >> 5), pre: [" ", " ", "\t", "", " \t"][(mask as usize >> 15) % 5].into(), value: c, post: ["", "", "\t", "  "][(mask as usize >> 27) % 4].into() });
         // now and then the header is repeated further down with another value: the first line counts,
         // wherever the library looks
         if (mask >> 21) % 8 == 0 {
@@ -225,7 +225,10 @@ pub fn build_req(id: u32, method: String, path: String, version: &str, mut extra
     }
     if expect {
         let at = (mask as usize >> 16) % (extra.len() + 1);
-        extra.insert(at, Hdr { name: case_variant("Expect", mask >> 7), pre: " ".into(), value: case_variant("100-continue", mask >> 9), post: String::new() });
+        // optional whitespace around the value is spaces and tabs, any number of them
+        let pre = [" ", " ", "", "\t", "  ", " \t ", "\t\t"][(mask as usize >> 14) % 7];
+        let post = ["", "", " ", "\t", " \t"][(mask as usize >> 10) % 5];
+        extra.insert(at, Hdr { name: case_variant("Expect", mask >> 7), pre: pre.into(), value: case_variant("100-continue", mask >> 9), post: post.into() });
     }
     // framing follows the headers alone: a body-carrying request may use any method
     let method = if method == "POST" && mask != 0 && (mask >> 22) % 3 == 0 { ["HEAD", "GET", "PUT", "DELETE", "PATCH", "OPTIONS", "TRACE", "FROB", "CONNECT", "head"][(mask as usize >> 25) % 10].to_string() } else { method };
